@@ -15,7 +15,8 @@ TRUSTED = [
 ]
 ASSUMPTIONS = [
     'Stage 1 schemas (wf_schema): single integer primary key, int/str attributes, unique scalars, many-to-one / one-to-many with Pony\'s default cascade_delete; '
-    'one-to-one, many-to-many, composite keys, inheritance are covered by the implementation-side oracle of the fuzzer only when added to the generator (not yet)',
+    'one-to-one and many-to-many relationships and composite keys (Stage 2) are covered by the implementation-side oracles only (half of the search histories use them; the Coq model and the '
+    'correspondence do not); composite primary keys and inheritance are not generated',
     'the theorems about the committed database are unconditional (they also cover histories that reached a dirty site of the model); only '
     'C14_duplicate_creation_reported_except_known needs a clean history (s_dirty = 0), because it rests on the C11 index invariant',
     'the database model enforces PRIMARY KEY / UNIQUE as SQLite does; that the tables Pony creates carry these constraints is checked on every history '
@@ -23,13 +24,36 @@ ASSUMPTIONS = [
     'steps the model declines (a deleted object used as a reference value, Entity.set mixing reference and collection arguments, insertion order that depends on '
     'Python set iteration) end the comparison of that history',
 ]
-RULE = ('seeded generator of (schema, op list): 1-3 entities, 1-3 scalar attributes each, 1-3 relationships, 10-40 ops, ~85 % valid ops; '
+RULE = ('seeded generator of (schema, op list): 1-3 entities, 1-3 scalar attributes each, 1-3 relationships (search: also many-to-many, one-to-one, composite_key), 10-40 ops, ~85 % valid ops; '
         'non-trivial = at least three successful mutating ops; distinct = distinct canonical (schema, ops)')
 
 
 def correspondence(ctx): return chk.correspondence(ctx, ID)
-def search(ctx, deep): return chk.search(ctx, deep, ID)
-def replay(ctx, data): return chk.replay(ctx, data, ID)
+
+
+def _census(cases=None):
+    """tools/c14_ddl.py: every declared key (unique attribute, composite_key, composite primary key, keys of a subclass, many-to-many
+    link table) has a PRIMARY KEY / UNIQUE constraint in the schema SQLite holds, and a duplicate committed by a second session is refused."""
+    import vlib
+    out = vlib.run_impl('c14_ddl.py', {'cases': cases}, timeout=600)['results']
+    return [vlib.Failure('c14-declared-key-not-enforced:' + r['case'], 'declared key not enforced (%s): %s' % (r['case'], r['detail'][:600]),
+                         {'census_case': r['case']}) for r in out if not r['ok']], len(out)
+
+
+def search(ctx, deep):
+    s = chk.search(ctx, deep, ID)
+    fails, n = _census()
+    s.failures = fails + list(s.failures)
+    s.evaluations += n
+    s.distribution['declared_key_census_cases'] = n
+    return s
+
+
+def replay(ctx, data):
+    if 'census_case' in data:
+        fails, _ = _census([data['census_case']])
+        return fails[0] if fails else None
+    return chk.replay(ctx, data, ID)
 
 
 LEVEL_TEXT = ('Machine-checked proof (Coq 8.16.1) over the executable session model, Stage 1 schema space (single integer primary key, explicit or '
@@ -40,7 +64,8 @@ LEVEL_TEXT = ('Machine-checked proof (Coq 8.16.1) over the executable session mo
               'the db_session changes the committed database; and, for clean histories, creating an object under the primary key of a live object of '
               'the session never succeeds (reported when the change is made). The frame argument (only _save_created_/_save_updated_/_save_deleted_ write '
               'the database) is checked function by function over the whole model. Composite keys and composite unique keys are outside the model. '
-              'Tie: as for C11, plus a DDL check and in-session / committed duplicate oracles on the implementation.')
+              'Tie: as for C11, plus in-session / committed duplicate oracles on the implementation and a declared-key census (tools/c14_ddl.py): for unique attributes, composite keys, composite primary keys '
+              '(also containing a relationship), keys declared on a subclass and many-to-many link tables the schema SQLite holds must carry the constraint and a duplicate committed by a second session must be refused.')
 LEVEL_NOTE = ('Trusted: Coq kernel + vm_compute; the hand-written model (tied by differential runs only); the fuzzer harness; the SQLite reference semantics - '
               'in particular the theorem about committed rows is as strong as the model of SQLite constraint enforcement, which the per-commit row dumps and the '
               'error class of every failing flush validate. No known finding: the defect "auto-generated id collides with a cached object" leaves an orphan row '
